@@ -7,7 +7,7 @@
    Pointwise equalities for ALL inputs. *)
 From Coq Require Import String.
 From Comdex Require Import Lib.Base Lib.DecArith Lib.GoSem Model.Rates Gen.PureFuns
-  Proofs.PureFunsLemmas Proofs.PureFunsC18.
+  Proofs.PureFunsLemmas.
 
 (* GetUtilisationRatioByPoolIDAndAssetID: asset statistics present.  The model takes the sum
    TotalBorrowed + TotalStableBorrowed; the code's Int.Add overflow check is subsumed by Int64(). *)
